@@ -217,9 +217,35 @@ def embedded_pair_st(draw, tier):
 
 
 @st.composite
+def stale_report_st(draw, tier):
+    """An entry covered only through the members of a group on the entry above it; the report is queried, the group is
+    emptied of what covered it (in place, text unchanged), then shadows are removed."""
+    platform = draw(st.sampled_from(["ios", "nxos"]))
+    mem = []
+    for _ in range(draw(st.integers(1, 3))):
+        w = (1 << draw(st.integers(0, 8))) - 1
+        mem.append([draw(G.base_st()) & ~w & R.ALL1, w])
+    top = draw(G.ace_st(platform, kmax=0, seq=False, noise=False, established=False))
+    side = draw(st.sampled_from(["src", "dst"]))
+    top[side] = {"k": "group", "b": 0, "w": 0, "n": "G1", "m": mem}
+    inner = draw(st.sampled_from(mem))
+    bottom = dict(top)
+    bottom[side] = G.native_addr((inner[0] | (draw(st.integers(0, 255)) & inner[1]), 0), platform)
+    items = [{"t": "ace", "rec": G.to_native(top, platform)}]
+    for _ in range(draw(st.integers(0, 2))):
+        items.append({"t": "rem", "text": "x " + draw(G.remark_text_st()), "seq": 0})
+    items.append({"t": "ace", "rec": G.to_native(bottom, platform)})
+    acl = {"platform": platform, "name": "T", "type": "extended", "items": items, "prefix": "= ", "group_by": "", "indent": "  "}
+    return {"acl": acl, "skip": draw(st.sampled_from([None, None, ["nc_wildcard"]])),
+            "edits": [[0, draw(st.sampled_from(["replace", "replace", "pop", "line"])), [R.ip2int("198.51.100.9"), 0]]]}
+
+
+@st.composite
 def case_st(draw, tier):
     if draw(st.sampled_from(range(3))) == 0:
         return draw(embedded_pair_st(tier))
+    if draw(st.integers(0, 9)) == 5:
+        return draw(stale_report_st(tier))
     acl = draw(G.acl_st(min_items=3, max_items=12, kmax=3, groups=True, members=True, seqs=True, empty_sets=True, native=True,
                         multi=True))
     case = {"acl": acl, "skip": draw(st.sampled_from(A.SKIPS))}
